@@ -98,6 +98,12 @@ def case_strategy(draw, big=False):
     nat = sum(len(l.get('attach', [])) for l in lds)
     if nat >= 2 and draw(st.booleans()):
         case['attach_perm'] = list(draw(st.permutations(list(range(nat)))))
+    # the writer's other attachment form (pulse numbers relative to the object) and the program's own output file
+    ch = draw(st.integers(0, 5))
+    if ch <= 1:
+        case['by_geo'] = True
+    elif ch == 2:
+        case['via_file'] = True
     return case
 
 
@@ -207,6 +213,26 @@ def _flat(x):
     return [x]
 
 
+def written_by_main(argv):
+    """the option file the program itself writes for this command line (--output-cmdline), or None"""
+    import tempfile, shutil, os
+    d = tempfile.mkdtemp(prefix='pv_c15_')
+    try:
+        f = os.path.join(d, 'opts')
+        try:
+            build.run_main(list(argv) + ['--output-cmdline=' + f], False)
+        except SystemExit:
+            return None
+        except Exception:
+            if not os.path.exists(f):
+                raise
+        if not os.path.exists(f):
+            return None
+        return open(f).read()
+    finally:
+        shutil.rmtree(d, ignore_errors=True)
+
+
 def check(case):
     labels = common.base_labels(case)
     try:
@@ -245,7 +271,18 @@ def check(case):
         labels.append('dist-by-tag')
     if len(case['sources']) >= 2 and any(s['v'] == [1.0, 0.0] for s in case['sources']) and any(s['v'] != [1.0, 0.0] for s in case['sources']):
         labels.append('one-volt-among-several')
-    text = m.as_cmdline()
+    by_geo = bool(case.get('by_geo'))
+    via_file = bool(case.get('via_file'))
+    if by_geo:
+        labels.append('attach-relative-to-object')
+    if via_file:
+        labels.append('written-by-main')
+        text = written_by_main(build.argv_of(case))
+        if text is None:
+            return Result(fails=[('write:no-option-file', 'the accepted command line run with --output-cmdline leaves no option file')],
+                          nontrivial=nt, labels=sorted(set(labels)))
+    else:
+        text = m.as_cmdline(load_by_geo=by_geo)
     fails = []
     try:
         r, out, err = build.run_main(text.split(), True)
@@ -274,7 +311,7 @@ def check(case):
     d1, d2 = describe(m), describe(m2)
     fails += compare(d1, d2)
     # (4) writing again gives the same set of options
-    t2 = m2.as_cmdline()
+    t2 = (written_by_main(text.split()) or '') if via_file else m2.as_cmdline(load_by_geo=by_geo)
     s1 = set(x for x in text.split('\n') if x.strip())
     s2 = set(x for x in t2.split('\n') if x.strip())
     if s1 != s2:
